@@ -15,6 +15,7 @@
 package c19
 
 import (
+	"encoding/json"
 	"fmt"
 	"os"
 	"strconv"
@@ -72,20 +73,39 @@ func TestCheck(t *testing.T) {
 	defer r.Finish()
 	r.SetRule("case i = one generated client history (even i: NFSv4.0, odd i: NFSv4.1) of 14-27 state-changing requests by 1-2 clients, 2-3 open-owners / 3-7 slots, 5 file names, drawn from PRNG(VERIF_SEED, i); after each request the wrapper picks none / retransmit now / retransmit after unrelated traffic / misordered sequence (-1, +2) / same sequence with other operation, other state ID (4.0) or other operation list (4.1); OPEN, WRITE, READ may instead be held at a file-system gate with 1-3 concurrent identical retransmissions; a case is non-trivial if it hit at least one retransmission situation; distinct = distinct sequences of (operation kind, status, retransmission mode)")
 	r.Assume("the fake directory/leaf tree stands in for the virtual file system: only calls that reach it (open, close, write, truncate, create) count as file-system side effects")
-	r.Assume("server-side open/lock state is observed from outside only: READ (4.0) / TEST_STATEID (4.1) validity of every state ID the client was ever given, LOCKT sweeps of every file, and the number of draws from the program's random number generator; a side effect invisible to all of these is not detected")
+	r.Assume("server-side open/lock state is observed through: READ (4.0) / TEST_STATEID (4.1) validity of every state ID the client was ever given, LOCKT sweeps of every file, the number of draws from the program's random number generator, and the sizes of the programs' state tables (hook VerifStateCounts / VerifOpenedFilesPoolCounts: clients, sessions, owners, open/lock records, share, lock and hold counts, busy slots); a side effect that changes none of these (e.g. a sequence number moving inside a record) is only detected by its consequences for later in-order requests")
 	r.Assume("retransmissions with different content are only required to be refused where RFC 7530 9.1.9 / RFC 8881 2.10.6.1.3.1 let the server notice: other operation type or other state ID at the same owner seqid (4.0), other operation list shape on the same slot and sequence (4.1); an OPEN retransmitted with e.g. another file name at the same seqid is answered from the cache by design and is not probed")
 	r.Assume("a misordered or false-retry request only has to be rejected (any error status), must not be answered with the cached reply and must leave the fingerprint unchanged; the exact error code is recorded, not demanded")
 	r.Assume("hang verdicts are decided logically: the original has returned, the duplicate's goroutine is blocked on a channel inside /repo in three successive dumps and no other goroutine is inside /repo; wall time only paces the polling")
 	r.Assume("virtual clock advances by at most a few seconds per case, far below the 2 minute lease: lease expiry during retransmission is left to C18")
 
 	n := r.Pick(400, 6000)
-	for name, f := range floors {
-		r.Floor(name, r.Pick(f, 10*f))
-	}
 	totalReq, totalDup := 0, 0
 	only := -1
 	if s := os.Getenv("VERIF_C19_CASE"); s != "" {
 		only, _ = strconv.Atoi(s)
+	}
+	if f := r.ReplayFile(); f != "" {
+		// ./check C19 --replay <witness>: re-run only the recorded case.
+		var rep struct {
+			Seed    uint64 `json:"seed"`
+			Witness struct {
+				Case int `json:"case"`
+			} `json:"witness"`
+		}
+		if b, err := os.ReadFile(f); err == nil && json.Unmarshal(b, &rep) == nil {
+			only = rep.Witness.Case
+			if rep.Seed != r.Seed() {
+				r.Inconclusive("replay file %s was recorded with VERIF_SEED=%d; re-run with that seed", f, rep.Seed)
+			}
+		}
+	}
+	if only >= 0 {
+		// A single case cannot meet the floors of a whole run.
+		floors = map[string]int{}
+	}
+	for name, f := range floors {
+		r.Floor(name, r.Pick(f, 10*f))
 	}
 	for i := 0; i < n; i++ {
 		if only >= 0 && i != only {
@@ -142,7 +162,7 @@ func runCase(r *ev.Run, i int, version string) *hist {
 		}
 		prog = nfsv4srv.NewMinorVersionFallbackProgram([]nfsv4.Nfs4Program{other, prog})
 	}
-	h := &hist{r: r, rng: rng, caseIdx: i, version: version, fs: fs, srv: &server{prog: prog}, clk: clk, gen: gen, sits: map[string]int{}}
+	h := &hist{r: r, rng: rng, caseIdx: i, version: version, fs: fs, srv: &server{prog: prog}, clk: clk, gen: gen, pool: pool, sits: map[string]int{}}
 	if version == "4.0" {
 		run40(h)
 	} else {
